@@ -35,6 +35,15 @@ def configs(tier, seed):
                     ek = "x".join(f"{l}{k}" for l, k in extra.items())
                     out.append(dict(h="labels", op=kind, key=f"labels/{kind}/grid={grid}/n={n}/extra={ek}", kind=kind, grid=grid, n=n, extra=extra))
                 out.append(dict(h="shift_table", op=kind, key=f"shift_table/{kind}/grid={grid}/n={n}", kind=kind, grid=grid, n=n, extra={"r": 2}))
+    for kind in KINDS:
+        # scaling f(k x) = k f(x) with np.allclose following numpy's definition: explores the region where the
+        # whole driver is within allclose's absolute tolerance of zero
+        out.append(dict(h="scaling", op=kind, key=f"scaling/{kind}/n=3", kind=kind, grid="unit", n=3, extra={}))
+    for kind in KINDS:
+        for lt, prm in (REAL[1], REAL[4]):
+            for pd in ("p", "r", "pr", "rp"):
+                out.append(dict(h="labels_real", op=kind + lt, key=f"labels_real/{kind}/{lt}/prm_over={pd}", kind=kind, grid="uneven", n=3, extra={"p": 2, "r": 2},
+                                lt=lt, prm=prm, pd=pd))
     for grid in dsm.GRIDS:
         for n in ns:
             out.append(dict(h="impulse", op="idsm", key=f"impulse/idsm/grid={grid}/n={n}", kind="idsm", grid=grid, n=n, extra={"r": 2}))
@@ -48,7 +57,9 @@ def configs(tier, seed):
 def shim_plan(cfg):
     from svx import shims
 
-    return shims.default_plan(allclose="false")  # the warning-only np.allclose branch is not explored here (C03/C09/C10 explore it)
+    # np.allclose (guards the zero-driver warning) follows numpy's definition in the superposition harness, so that
+    # the "driver is numerically zero" region is explored there; elsewhere that branch is not explored (C03/C09/C10 do)
+    return shims.default_plan(allclose="model" if cfg["h"] == "scaling" else "false")
 
 
 def ctx_setup(cfg, c):
@@ -65,6 +76,44 @@ def _run(kind, dims, tab, driver):
     st = dsm.build_stock(kind, dims, lifetime=lt, **({"inflow": driver} if kind == "idsm" else {"stock": driver}))
     st.compute()
     return _results(st)
+
+
+def _labels_real(cfg, w, y, D):
+    """every label evolves as if computed alone with its own parameters -- through the real lifetime classes
+    (parameters as arrays over a subset of the label dimensions) and every solver"""
+    import flodym.lifetime_models as lm
+    from flodym import FlodymArray
+
+    kind, lt = cfg["kind"], cfg["lt"]
+    dims = dsm.make_dims(y, cfg["extra"])
+    shape = dims.shape
+    pd = cfg["pd"]
+    P = {}
+    for name in cfg["prm"]:
+        A = w.arr("prm_" + name, tuple(2 for _ in pd), default=lambda idx, name=name: {"mean": 3.0, "std": 1.0, "weibull_shape": 1.7, "weibull_scale": 3.5}[name] * (1 + 0.27 * sum((i + 1) * (k + 1) for k, i in enumerate(idx))))
+        for x in A.flat:
+            w.assume(w.gt(x, 0))
+        P[name] = A
+    def model(d, prm):
+        return getattr(lm, lt)(dims=d, **prm)
+    full_lt = model(dims, {k: FlodymArray(dims=dims.get_subset(tuple(pd)), values=v.copy()) for k, v in P.items()})
+    st = dsm.build_stock(kind, dims, lifetime=full_lt, **({"inflow": D} if kind == "idsm" else {"stock": D}))
+    st.compute()
+    full = _results(st)
+    dims1 = dsm.make_dims(y, {})
+    for lab in dsm.labels(shape[1:]):
+        sel = (slice(None),) + lab
+        lab_of = dict(zip("pr", lab))
+        prm1 = {k: v[tuple(lab_of[l] for l in pd)] for k, v in P.items()}
+        s1 = dsm.build_stock(kind, dims1, lifetime=model(dims1, prm1), **({"inflow": D[sel]} if kind == "idsm" else {"stock": D[sel]}))
+        s1.compute()
+        one = _results(s1)
+        for k in one:
+            a = np.asarray(full[k])
+            part = a[sel] if a.ndim == len(shape) else a[(slice(None), slice(None)) + lab]
+            o = np.asarray(one[k])
+            for idx in np.ndindex(*o.shape):
+                w.ob_eq(f"label{list(lab)}:{k}{list(idx)}", part[idx], o[idx], chain=kind.startswith("sdsm"))
 
 
 def run(cfg, w):
@@ -97,8 +146,14 @@ def run(cfg, w):
             for idx in np.ndindex(*np.shape(res[0][k])):
                 w.ob_eq(f"shift_invariant:{k}{list(idx)}", res[1][k][idx], res[0][k][idx])
         return
-    tab = dsm.sf_table(w, n, shape[1:], constrain=("range",), diag_min=(0.05 if chain else None))
+    if h == "labels_real":
+        tab = None
+    else:
+        tab = dsm.sf_table(w, n, shape[1:], constrain=("range",), diag_min=(0.05 if chain else None))
     D = w.arr("d", shape)
+    w.set_scale(D)
+    if h == "labels_real":
+        return _labels_real(cfg, w, y, D)
     if h == "causal":
         t0 = cfg["t0"]
         D2 = D.copy()
@@ -111,6 +166,15 @@ def run(cfg, w):
             for idx in np.ndindex(*a1.shape):
                 if idx[0] <= t0:
                     w.ob_eq(f"causal:{k}{list(idx)}", a2[idx], a1[idx], chain=chain)
+        return
+    if h == "scaling":
+        k = w.real("k", default=1e-9)
+        r1 = _run(kind, dims, tab, D)
+        r2 = _run(kind, dims, tab, k * D)
+        for key in r1:
+            a1, a2 = np.asarray(r1[key]), np.asarray(r2[key])
+            for idx in np.ndindex(*a1.shape):
+                w.ob_eq(f"scaling:{key}{list(idx)}", a2[idx], k * a1[idx], chain=chain)
         return
     if h == "linear":
         D2 = w.arr("e", shape)
